@@ -260,7 +260,7 @@ func init() {
 			if tier == "thorough" {
 				return []*JobCfg{pipe(1, 1, 6, allKinds), pipe(1, 2, 10, allKinds), pipe(1, 3, 9, kG|kM|kP|kU|kQ), world(1, 2, 0, 9, kG|kM, fBackErr), world(1, 2, 0, 9, kG|kM|kP, fSplit), world(1, 1, 1, 8, kG|kM|kP, 0), worldO(1, 2, 0, 8, kM|kP, 0), world(1, 2, 0, 8, allKinds, fWide), world(1, 3, 0, 8, allKinds, fBatch), world(1, 2, 1, 8, kG|kM|kP, fMulti|fBatch), world(1, 1, 1, 8, kG|kM, fHangup), world(1, 2, 1, 7, kG|kM|kP, fHangup), noMapOrder(job(pkgServer, "HarnessBig", 0, 5000, 20, 256)), noMapOrder(job(pkgServer, "HarnessBig", 0, 17000, 30, 32768)), noMapOrder(job(pkgServer, "HarnessBig", 0, 17000, 17000, 256)), noMapOrder(job(pkgServer, "HarnessBig", 0, 70000, 5000, 65536))}
 			}
-			return []*JobCfg{pipe(1, 1, 6, allKinds), pipe(1, 2, 8, allKinds), world(1, 2, 0, 7, kG|kM, fBackErr), world(1, 2, 0, 7, kG|kP, fSplit), pipe(1, 3, 6, kG|kP|kQ), world(1, 3, 0, 6, kG|kM|kP|kU, fBatch), world(1, 2, 1, 6, kG|kM, fMulti|fBatch), world(1, 1, 1, 6, kG|kM, fHangup), noMapOrder(job(pkgServer, "HarnessBig", 0, 5000, 20, 256)), noMapOrder(job(pkgServer, "HarnessBig", 0, 17000, 30, 32768)), noMapOrder(job(pkgServer, "HarnessC02Slow", 4)), noMapOrder(job(pkgServer, "HarnessC09Slow", 16, 3))}
+			return []*JobCfg{pipe(1, 1, 6, allKinds), pipe(1, 2, 8, allKinds), world(1, 2, 0, 7, kG|kM, fBackErr), world(1, 2, 0, 7, kG|kP, fSplit), pipe(1, 3, 6, kG|kP|kQ), world(1, 3, 0, 6, kG|kM|kP|kU, fBatch), world(1, 2, 1, 6, kG|kM, fMulti|fBatch), world(1, 1, 1, 6, kG|kM, fHangup), noMapOrder(job(pkgServer, "HarnessBig", 0, 5000, 20, 256)), noMapOrder(job(pkgServer, "HarnessBig", 0, 17000, 30, 32768)), noMapOrder(job(pkgServer, "HarnessC02Slow", 4)), noMapOrder(job(pkgServer, "HarnessC09Slow", 16, 3)), job(pkgServer, "HarnessC02Rsp", 7, 2, 0), job(pkgServer, "HarnessC02Rsp", 3, 1, 0)}
 		},
 		Bounds: func(tier string) string {
 			return "pipelines of 1..3 requests, each of a solver-chosen kind (GET, SET, two-key MGET over one or two nodes, PING, unknown command, wrong arity, QUIT last) with solver-chosen key bytes/owner, every schedule of up to 8 (quick) / 9 (thorough) events; a second concurrent client, one of the two possibly disconnecting at any point with requests in flight (the other client's replies must be unaffected); replies of 5000 and 17000 bytes completing out of order"
@@ -296,7 +296,7 @@ func init() {
 			if tier == "thorough" {
 				return []*JobCfg{world(3, 1, 1, 9, kG|kM, fUnowned), world(3, 2, 1, 8, kG|kM, fUnowned), world(3, 1, 1, 8, kG|kM, fHangup), world(3, 1, 1, 8, kG|kM, fDial), world(3, 1, 1, 8, kG|kM, fBackErr), world(3, 1, 1, 7, kG|kM, fLoss), world(3, 1, 1, 7, kG|kM, fTimeout), worldO(3, 1, 1, 7, kM, fUnowned), world(3, 2, 1, 7, kG|kM, fMulti|fBatch), world(3, 1, 1, 7, kG|kM, fRemove), world(3, 1, 1, 8, kG|kM, fHangup|fLate), noMapOrder(job(pkgServer, "HarnessBig", 0, 5000, 20, 256)), noMapOrder(job(pkgServer, "HarnessBig", 0, 17000, 30, 32768)), noMapOrder(job(pkgServer, "HarnessBig", 0, 17000, 17000, 256)), noMapOrder(job(pkgServer, "HarnessBig", 0, 70000, 5000, 65536)), noMapOrder(job(pkgServer, "HarnessBig", 2, 9000, 20, 256)), noMapOrder(job(pkgServer, "HarnessBig", 2, 9000, 5000, 256)), noMapOrder(job(pkgServer, "HarnessBig", 2, 70000, 5000, 65536)), noMapOrder(job(pkgServer, "HarnessBig", 2, 17000, 17000, 32768))}
 			}
-			return []*JobCfg{world(3, 1, 1, 7, kG|kM, fUnowned), world(3, 1, 1, 6, kG|kM, fHangup), world(3, 1, 1, 6, kM, fDial), world(3, 1, 1, 6, kG|kM, fBackErr), world(3, 2, 1, 6, kG|kM, fMulti|fBatch), noMapOrder(job(pkgServer, "HarnessBig", 0, 5000, 20, 256)), noMapOrder(job(pkgServer, "HarnessBig", 0, 17000, 30, 32768)), noMapOrder(job(pkgServer, "HarnessBig", 2, 9000, 20, 256)), noMapOrder(job(pkgServer, "HarnessBig", 2, 9000, 5000, 256))}
+			return []*JobCfg{world(3, 1, 1, 7, kG|kM, fUnowned), world(3, 1, 1, 6, kG|kM, fHangup), world(3, 1, 1, 6, kM, fDial), world(3, 1, 1, 6, kG|kM, fBackErr), world(3, 2, 1, 6, kG|kM, fMulti|fBatch), noMapOrder(job(pkgServer, "HarnessBig", 0, 5000, 20, 256)), noMapOrder(job(pkgServer, "HarnessBig", 0, 17000, 30, 32768)), noMapOrder(job(pkgServer, "HarnessBig", 2, 9000, 20, 256)), noMapOrder(job(pkgServer, "HarnessBig", 2, 9000, 5000, 256)), job(pkgServer, "HarnessC17RspSize", 4, 5, 20), job(pkgServer, "HarnessC17RspSize", 12, 5, 40)}
 		},
 		Bounds: func(tier string) string {
 			return "two clients with 1..2 requests each (GET / two-key MGET, solver-chosen owners and key bytes), every schedule up to 6 (quick) / 8 (thorough) events, with one of: node B's slots unowned, a client disconnecting mid-flight, dialling node B failing; thorough adds backend loss and timeouts"
@@ -330,14 +330,14 @@ func init() {
 	register(&CheckSpec{ID: "C13", Patterns: []string{pkgServer},
 		Jobs: func(tier string) []*JobCfg {
 			js := []*JobCfg{job(pkgServer, "HarnessC13", 0, 1), job(pkgServer, "HarnessC13", 1, 1), job(pkgServer, "HarnessC13", 0, 2), job(pkgServer, "HarnessC13", 1, 2),
-				noMapOrder(job(pkgServer, "HarnessC13Seq", 8, 1)), noMapOrder(job(pkgServer, "HarnessC13Seq", 4, 2))}
+				noMapOrder(job(pkgServer, "HarnessC13Seq", 8, 1)), noMapOrder(job(pkgServer, "HarnessC13Seq", 4, 2)), noMapOrder(job(pkgServer, "HarnessC13Wide", 7))}
 			if tier == "thorough" {
-				js = append(js, noMapOrder(job(pkgServer, "HarnessC13Seq", 12, 1)), noMapOrder(job(pkgServer, "HarnessC13Seq", 6, 2)))
+				js = append(js, noMapOrder(job(pkgServer, "HarnessC13Seq", 12, 1)), noMapOrder(job(pkgServer, "HarnessC13Seq", 6, 2)), noMapOrder(job(pkgServer, "HarnessC13Wide", 10)), sites(job(pkgServer, "HarnessC13Wide", 4), "OnCReact"))
 			}
 			return js
 		},
 		Bounds: func(tier string) string {
-			return "one redirect step: solver-chosen kind (MOVED/ASK), known or unknown target, single-key request or fragment of a split MGET, first or second position in a two-request pipeline, other node answering before or after; one or two connections per backend node; sequences of 8 (thorough 12) requests on one connection each redirected once, and of 4 (thorough 6) requests each redirected twice (B -> C -> A), every redirect MOVED or ASK by the solver's choice, request objects recycled from one request to the next"
+			return "one redirect step: solver-chosen kind (MOVED/ASK), known or unknown target, single-key request or fragment of a split MGET, first or second position in a two-request pipeline, other node answering before or after; one or two connections per backend node; sequences of 8 (thorough 12) requests on one connection each redirected once, and of 4 (thorough 6) requests each redirected twice (B -> C -> A), every redirect MOVED or ASK by the solver's choice, request objects recycled from one request to the next; one MGET over 7 (thorough 10) slots with EVERY fragment redirected (MOVED or ASK per fragment)"
 		},
 		Assumptions: []string{"termination is claimed per redirect step (the proxy has no hop limit)"}, Stubs: []string{stubWorld},
 		Outside: []string{"chains of more than two redirects, redirects arriving while the target connection is being dialled unsuccessfully"}})
@@ -345,9 +345,9 @@ func init() {
 		Jobs: func(tier string) []*JobCfg {
 			js := []*JobCfg{job(pkgServer, "HarnessC04", 1, 0, 0), job(pkgServer, "HarnessC04", 0, 0, 1), job(pkgServer, "HarnessC04", 1, 1, 0),
 				noMapOrder(job(pkgServer, "HarnessC04Seq", 2, 0)), noMapOrder(job(pkgServer, "HarnessC04Seq", 2, 1)),
-				noMapOrder(job(pkgServer, "HarnessC04Topo", 1, 0, 6, 0, 0))}
+				noMapOrder(job(pkgServer, "HarnessC04Topo", 1, 0, 6, 0, 0)), noMapOrder(job(pkgServer, "HarnessC04TopoConns", 1, 4, 2))}
 			if tier == "thorough" {
-				js = append(js, noMapOrder(job(pkgServer, "HarnessC04Topo", 2, 0, 6, 0, 0)), noMapOrder(job(pkgServer, "HarnessC04Topo", 1, 1, 6, 1, 0)), noMapOrder(job(pkgServer, "HarnessC04Topo", 1, 0, 6, 0, 1)))
+				js = append(js, noMapOrder(job(pkgServer, "HarnessC04Topo", 2, 0, 6, 0, 0)), noMapOrder(job(pkgServer, "HarnessC04Topo", 1, 1, 6, 1, 0)), noMapOrder(job(pkgServer, "HarnessC04Topo", 1, 0, 6, 0, 1)), noMapOrder(job(pkgServer, "HarnessC04TopoConns", 1, 6, 3)))
 				js = append(js, job(pkgServer, "HarnessC04", 2, 0, 1), job(pkgServer, "HarnessC04", 2, 1, 1), job(pkgServer, "HarnessC04", 0, 0, 0), noMapOrder(job(pkgServer, "HarnessC04Seq", 3, 0)))
 			}
 			return js
@@ -395,9 +395,9 @@ func init() {
 		Outside: []string{"more than 3 keys / 2 nodes, counts >= 10"}})
 	register(&CheckSpec{ID: "C11", Patterns: []string{pkgServer},
 		Jobs: func(tier string) []*JobCfg {
-			js := []*JobCfg{job(pkgServer, "HarnessC11Single"), job(pkgServer, "HarnessC07", 1, 2, 1), job(pkgServer, "HarnessC07", 2, 2, 1), job(pkgServer, "HarnessC11Seq", 12)}
+			js := []*JobCfg{job(pkgServer, "HarnessC11Single"), job(pkgServer, "HarnessC07", 1, 2, 1), job(pkgServer, "HarnessC07", 2, 2, 1), job(pkgServer, "HarnessC11Seq", 12, 0), job(pkgServer, "HarnessC11Seq", 40, 1)}
 			if tier == "thorough" {
-				js = append(js, job(pkgServer, "HarnessC07", 0, 2, 1), job(pkgServer, "HarnessC07", 1, 3, 1), job(pkgServer, "HarnessC11Seq", 40))
+				js = append(js, job(pkgServer, "HarnessC07", 0, 2, 1), job(pkgServer, "HarnessC07", 1, 3, 1), job(pkgServer, "HarnessC11Seq", 40, 0), job(pkgServer, "HarnessC11Seq", 300, 1))
 			} else {
 				js = append(js, job(pkgServer, "HarnessC07", 0, 1, 1))
 			}
@@ -407,7 +407,7 @@ func init() {
 			return js
 		},
 		Bounds: func(tier string) string {
-			return "error replies '-' + EVERY 8 printable bytes (so -LOADING, -WRONGTYP, -TRYAGAIN, -READONLY, -CROSSSLO, -CLUSTERD, -ERR ... are included) other than the ones the proxy acts on, on any subset of the fragments of a 1..3-key MGET/DEL/MSET in both arrival orders and split reads; single-key GET answered with such an error; 12 (thorough 40) requests in a row all answered with the same arbitrary error, then a normal reply"
+			return "error replies '-' + EVERY 8 printable bytes (so -LOADING, -WRONGTYP, -TRYAGAIN, -READONLY, -CROSSSLO, -CLUSTERD, -ERR ... are included) other than the ones the proxy acts on, on any subset of the fragments of a 1..3-key MGET/DEL/MSET in both arrival orders and split reads; single-key GET answered with such an error; 12 (thorough 40) requests in a row all answered with the same arbitrary error, and 40 (thorough 300) requests each answered with an error of a different kind, then a normal reply"
 		},
 		Assumptions: []string{"the first 8 bytes of the error line are arbitrary printable bytes, the rest is fixed"}, Stubs: []string{stubWorld},
 		Outside: []string{"replies of the wrong shape that a Redis node cannot produce (e.g. a status reply to MGET)"}})
@@ -471,7 +471,7 @@ func init() {
 		},
 		Assumptions: []string{"short writes exist only in the socket model (a native run cannot force them); counterexamples that need them are reported as model-level"}, Stubs: []string{stubWorld},
 		Outside: []string{"multi-megabyte values, nesting deeper than 2, the redirect and authentication errors the proxy itself acts on"}})
-	register(&CheckSpec{ID: "C19", Patterns: []string{pkgRing, pkgList, pkgElastic, pkgServer},
+	register(&CheckSpec{ID: "C19", Patterns: []string{pkgRing, pkgList, pkgElastic, pkgServer, pkgCore},
 		Jobs: func(tier string) []*JobCfg {
 			var js []*JobCfg
 			sizes := []int64{0, 2, 4}
@@ -517,6 +517,8 @@ func init() {
 			// the users: partial writes to a slow peer and the ordered drain of the backlog (conn.write/writev,
 			// eventloop.write) in both directions
 			js = append(js, noMapOrder(job(pkgServer, "HarnessC02Slow", 4)), noMapOrder(job(pkgServer, "HarnessBig", 1, 9000, 0, 256)))
+			// buffers of a connection that was torn down with bytes still in them must not reach the next connection
+			js = append(js, withSumHash(job(pkgCore, "HarnessC08Hist", 0, 1, -1, 0, 1)), withSumHash(job(pkgCore, "HarnessC08Hist", 0, 1, -1, 0, 3)))
 			if tier == "thorough" {
 				js = append(js, noMapOrder(job(pkgServer, "HarnessC02Slow", 8)), noMapOrder(job(pkgServer, "HarnessC10Slow", 16, 3)), noMapOrder(job(pkgServer, "HarnessBig", 1, 17000, 0, 32768)), noMapOrder(job(pkgServer, "HarnessBig", 1, 70000, 0, 65536)))
 			}
@@ -553,14 +555,14 @@ func init() {
 		Outside:     []string{"contents of rings larger than 8 bytes (only grow() is run at 1-8 KiB), ReadFrom/WriteTo/CopyFromSocket (unused by the proxy)"}})
 	register(&CheckSpec{ID: "C14", Patterns: []string{pkgCore}, AllowBlocked: true,
 		Jobs: func(tier string) []*JobCfg {
-			js := []*JobCfg{noMapOrder(job(pkgCore, "HarnessC14Loop")), noMapOrder(job(pkgCore, "HarnessC14Parse")), noMapOrder(job(pkgCore, "HarnessC14Ticker")), noMapOrder(job(pkgCore, "HarnessC14History", 5, 3)), noMapOrder(job(pkgCore, "HarnessC14Bunched", 3, 3))}
+			js := []*JobCfg{noMapOrder(job(pkgCore, "HarnessC14Loop")), noMapOrder(job(pkgCore, "HarnessC14Parse")), noMapOrder(job(pkgCore, "HarnessC14Ticker")), noMapOrder(job(pkgCore, "HarnessC14History", 5, 3)), noMapOrder(job(pkgCore, "HarnessC14Bunched", 3, 3)), noMapOrder(job(pkgCore, "HarnessC14HistoryInfo", 3, 3))}
 			if tier == "thorough" {
-				js = append(js, noMapOrder(job(pkgCore, "HarnessC14History", 5, 4)), noMapOrder(job(pkgCore, "HarnessC14History", 6, 3)), noMapOrder(job(pkgCore, "HarnessC14Bunched", 4, 4)))
+				js = append(js, noMapOrder(job(pkgCore, "HarnessC14History", 5, 4)), noMapOrder(job(pkgCore, "HarnessC14History", 6, 3)), noMapOrder(job(pkgCore, "HarnessC14Bunched", 4, 4)), noMapOrder(job(pkgCore, "HarnessC14HistoryInfo", 4, 3)), noMapOrder(job(pkgCore, "HarnessC14History", 4, 6)))
 			}
 			return js
 		},
 		Bounds: func(tier string) string {
-			return "(a) refresh loop: one unusable probe reply of 6 classes (status, nil, error with arbitrary code, too few nodes, arbitrary 4-byte text, arbitrary 2-byte status) followed by a valid one; (b) node filter: role x every subset/placement of {myself, fail?, fail, handshake, noaddr} x link state x INFO loading/master_link answers; (c) slot table rebuild with the last range end in {16383, 16000, 16384, 20000, 5460} and an arbitrary probe slot; (d) every history of 5 (thorough 6) successive valid replies chosen among steady state / fail-over / fail-back as replica / resharding, with a ticker run after each: table, replica sets and pools describe the latest reply; (e) histories of 3 (thorough 4) replies that may bunch up (the ticker runs or does not run between two replies, solver's choice), after which the cluster is stable (the last description is repeated, the ticker runs): the table describes the last one"
+			return "(a) refresh loop: one unusable probe reply of 6 classes (status, nil, error with arbitrary code, too few nodes, arbitrary 4-byte text, arbitrary 2-byte status) followed by a valid one; (b) node filter: role x every subset/placement of {myself, fail?, fail, handshake, noaddr} x link state x INFO loading/master_link answers; (c) slot table rebuild with the last range end in {16383, 16000, 16384, 20000, 5460} and an arbitrary probe slot; (d) every history of 5 (thorough 6) successive valid replies chosen among steady state / fail-over / fail-back as replica / resharding, with a ticker run after each: table, replica sets and pools describe the latest reply; (e) histories of 3 (thorough 4) replies that may bunch up (the ticker runs or does not run between two replies, solver's choice), after which the cluster is stable (the last description is repeated, the ticker runs): the table describes the last one; (f) histories of 3 (thorough 4) replies in which, at each reply, one of the two nodes that change role may report loading:1 to INFO: as a NEWLY DISCOVERED replica it is left out, a node already in force is not probed again"
 		},
 		Assumptions: []string{"INFO answers come from a fake RedisWrapper; cornelk/hashmap is modelled as an ideal map; the refresh goroutine body is run to its next blocking receive", "map iteration order not explored here"},
 		Stubs:       []string{stubWorld, "hashmap.HashMap = ideal map", "context.WithCancel = no-op"},
